@@ -152,7 +152,7 @@ func validationGrids() []fieldGrid {
 		{"effect", func(o *controller.NodeGroupOptions, v []any) { o.TaintEffect = v1.TaintEffect(v[0].(string)) },
 			[][]any{strs("", "NoSchedule", "NoExecute", "PreferNoSchedule", "noschedule", "NoScheduleX", "None", " NoExecute")}},
 		{"lifecycle", func(o *controller.NodeGroupOptions, v []any) { o.AWS.Lifecycle = v[0].(string) },
-			[][]any{strs("", "on-demand", "spot", "Spot", "ondemand", "reserved")}},
+			[][]any{strs("", "on-demand", "spot", "Spot", "ondemand", "reserved", "capacity-block", "on_demand", "On-Demand", "SPOT", " spot", "scheduled", "capacity-optimized", "lowest-price", "spot,on-demand")}},
 		{"maxage", func(o *controller.NodeGroupOptions, v []any) { o.MaxNodeAge = v[0].(string) }, [][]any{durVals}},
 	}
 }
@@ -284,8 +284,8 @@ func knownKeys() []docKey {
 		{"soft_delete_grace_period", false, func(o controller.NodeGroupOptions) any { return o.SoftDeleteGracePeriod }, genStr("1m", "30s")},
 		{"hard_delete_grace_period", false, func(o controller.NodeGroupOptions) any { return o.HardDeleteGracePeriod }, genStr("10m", "2h")},
 		{"taint_effect", false, func(o controller.NodeGroupOptions) any { return string(o.TaintEffect) }, genStr("NoExecute", "NoSchedule", "PreferNoSchedule")},
-		{"max_node_age", false, func(o controller.NodeGroupOptions) any { return o.MaxNodeAge }, genStr("24h", "0", "90m")},
-		{"fleet_instance_ready_timeout", true, func(o controller.NodeGroupOptions) any { return o.AWS.FleetInstanceReadyTimeout }, genStr("1m", "30s")},
+		{"max_node_age", false, func(o controller.NodeGroupOptions) any { return o.MaxNodeAge }, genStr("24h", "0", "90m", "12")},
+		{"fleet_instance_ready_timeout", true, func(o controller.NodeGroupOptions) any { return o.AWS.FleetInstanceReadyTimeout }, genStr("1m", "30s", "60")},
 		{"launch_template_id", true, func(o controller.NodeGroupOptions) any { return o.AWS.LaunchTemplateID }, genStr("lt-1a2b3c4d", "lt-0123456789abcdef0")},
 		{"launch_template_version", true, func(o controller.NodeGroupOptions) any { return o.AWS.LaunchTemplateVersion }, genStr("1", "12", "$Latest")},
 		{"lifecycle", true, func(o controller.NodeGroupOptions) any { return o.AWS.Lifecycle }, genStr("on-demand", "spot")},
@@ -389,12 +389,18 @@ func renderYAML(groups []groupSrc, style int, pad int) string {
 				fmt.Fprintf(&b, "%saws:\n", prefix)
 				am := g[k].(map[string]any)
 				for _, ak := range sortedKeys(am) {
+					if s, ok := am[ak].(string); ok && style == 2 && bareNumber.MatchString(s) {
+						fmt.Fprintf(&b, "        %s: %s\n", ak, s) // launch_template_version: 1
+						continue
+					}
 					fmt.Fprintf(&b, "        %s: %s\n", ak, yamlScalar(am[ak]))
 				}
 				continue
 			}
 			v := g[k]
-			if s, ok := v.(string); ok && style == 1 && regexp.MustCompile(`^[a-zA-Z][a-zA-Z0-9_.-]*$`).MatchString(s) && !isYAMLKeyword(s) {
+			if s, ok := v.(string); ok && style == 2 && bareNumber.MatchString(s) {
+				fmt.Fprintf(&b, "%s%s: %s\n", prefix, k, s) // max_node_age: 0
+			} else if s, ok := v.(string); ok && style == 1 && regexp.MustCompile(`^[a-zA-Z][a-zA-Z0-9_.-]*$`).MatchString(s) && !isYAMLKeyword(s) {
 				fmt.Fprintf(&b, "%s%s: %s\n", prefix, k, s) // plain scalar
 			} else {
 				fmt.Fprintf(&b, "%s%s: %s\n", prefix, k, yamlScalar(v))
@@ -406,6 +412,9 @@ func renderYAML(groups []groupSrc, style int, pad int) string {
 	}
 	return b.String()
 }
+
+// strings that YAML reads as an integer when written without quotes (escalator's string options accept them)
+var bareNumber = regexp.MustCompile(`^(0|[1-9][0-9]*)$`)
 
 func isYAMLKeyword(s string) bool {
 	switch strings.ToLower(s) {
@@ -517,7 +526,7 @@ func TestC16Decode(t *testing.T) {
 			groups = append(groups, src)
 		}
 		pad := rapid.SampledFrom([]int{0, 0, 4000, 4096, 5000, 66000, 140000}).Draw(rt, "pad")
-		style := rapid.IntRange(0, 1).Draw(rt, "yamlStyle")
+		style := rapid.IntRange(0, 2).Draw(rt, "yamlStyle")
 		y := renderYAML(groups, style, pad)
 		js := renderJSON(groups, rapid.Bool().Draw(rt, "indent"), pad)
 		col.Eval(1)
